@@ -54,6 +54,12 @@ type ExecDouble struct {
 	// transport-style errors there, not Go's context errors.
 	CallDelay time.Duration
 	AbortErr  error
+	// Stateful makes the double behave like an execution layer with its own durable state (as the reference KV
+	// executor): the returned root is the root of everything it has ever executed, in first-execution order, not a
+	// function of the prevStateRoot argument; executing the same (height, txs) again is idempotent.
+	Stateful  bool
+	stCur     []byte
+	stByBlock map[string][]byte
 	// blockCalls makes every ExecuteTxs / SetFinal call wait until its context ends (see BlockCalls)
 	blockCalls   atomic.Bool
 	blockFinal   atomic.Bool
@@ -192,6 +198,20 @@ func (e *ExecDouble) ExecuteTxs(ctx context.Context, txs [][]byte, blockHeight u
 		return nil, 0, context.Canceled
 	}
 	root := RootAfter(prevStateRoot, txs)
+	if e.Stateful {
+		if e.stByBlock == nil {
+			e.stByBlock = map[string][]byte{}
+			e.stCur = e.initRoot
+		}
+		key := fmt.Sprintf("%d/%x", blockHeight, RootAfter(nil, txs))
+		if prev, ok := e.stByBlock[key]; ok {
+			root = prev
+		} else {
+			e.stCur = RootAfter(e.stCur, txs)
+			e.stByBlock[key] = e.stCur
+			root = e.stCur
+		}
+	}
 	call.Root = root
 	e.calls = append(e.calls, call)
 	// executed transactions leave the mempool
